@@ -49,7 +49,25 @@ def ordered_delivery(rep, rule, fn, file, label, deliver, container, counter, ke
               ok, site(fn, file), key="%s:%s:indexed-by-counter" % (rule, label),
               what="%s can deliver a value that is not the buffered entry for the next expected number (out-of-order / gap)" % label)
     from ..cfg import in_atom
-    unguarded = g.only_when(dn, in_atom(lambda e: is_self_attr(e, counter), lambda e: is_self_attr(e, container)), True)
+    # a local snapshot `n = self.<counter>` counts as the counter where it is fresh: no increment can reach a use of it
+    # without passing the snapshot again
+    fresh = set()
+    stores = [x.id for x in ast.walk(fn) if isinstance(x, ast.Name) and isinstance(x.ctx, ast.Store)]
+    inc_nodes = g.nodes(lambda s: isinstance(s, (ast.AugAssign, ast.Assign)) and any(
+        is_self_attr(t, counter) for t in ([s.target] if isinstance(s, ast.AugAssign) else s.targets)))
+    for a in [x for x in ast.walk(fn) if isinstance(x, ast.Assign) and len(x.targets) == 1 and isinstance(x.targets[0], ast.Name)
+              and is_self_attr(x.value, counter) and stores.count(x.targets[0].id) == 1]:
+        b = g.node_of(a)
+        nm = a.targets[0].id
+        uses = [n for n in g.stmt if n != b and any(isinstance(x, ast.Name) and x.id == nm for e in g.head_expr(n) for x in ast.walk(e))]
+        stale = False
+        for i in inc_nodes:
+            r = g.reach([y for (y, lab) in g.succ[i] if lab != 'exc'], avoid_nodes={b})
+            stale = stale or bool(set(uses) & r)
+        if b is not None and not stale:
+            fresh.add(nm)
+    is_counter = lambda e: is_self_attr(e, counter) or (isinstance(e, ast.Name) and e.id in fresh)
+    unguarded = g.only_when(dn, in_atom(is_counter, lambda e: is_self_attr(e, container)), True)
     rep.check(rule, "%s: a delivery happens only under `self.%s in self.%s`" % (label, counter, container), not unguarded, site(fn, file),
               key="%s:%s:membership-guard" % (rule, label))
     incs = g.nodes(lambda s: isinstance(s, ast.AugAssign) and is_self_attr(s.target, counter) and isinstance(s.op, ast.Add)
